@@ -305,6 +305,19 @@ def _split_parallel(stmts):
     name bound on the left (so the order does not matter)."""
     out = []
     for st in stmts:
+        # a = b = V  ->  a = V ; b = V   for a constant or plain name V
+        if isinstance(st, ast.Assign) and len(st.targets) > 1 and \
+                all(isinstance(t, ast.Name) for t in st.targets) and \
+                (isinstance(st.value, ast.Constant) or (
+                    isinstance(st.value, ast.Name) and
+                    st.value.id not in [t.id for t in st.targets])):
+            for tgt in st.targets:
+                new = ast.Assign(targets=[tgt],
+                                 value=copy.deepcopy(st.value))
+                ast.copy_location(new, st)
+                ast.fix_missing_locations(new)
+                out.append(new)
+            continue
         if isinstance(st, ast.Assign) and len(st.targets) == 1 and \
                 isinstance(st.targets[0], ast.Tuple) and \
                 isinstance(st.value, ast.Tuple) and \
